@@ -1,0 +1,23 @@
+//go:build verif
+
+package settings
+
+import (
+	"github.com/anyproto/any-sync/commonspace/object/tree/objecttree"
+	"github.com/anyproto/any-sync/commonspace/settings/settingsstate"
+)
+
+// VerifState returns the incrementally kept state of a settings object built by NewSettingsObject (nil before Init).
+// The caller holds the object's lock. No behaviour change.
+func VerifState(obj SettingsObject) *settingsstate.State {
+	return obj.(*settingsObject).state
+}
+
+// VerifSetBuildHistoryTree replaces the builder of the history tree that Init (checkHistoryState) uses and returns a
+// function restoring the previous one, the way the package's own tests swap it: a verification harness whose changes
+// carry no signatures passes the non-verifying history builder. Nothing changes unless it is called.
+func VerifSetBuildHistoryTree(f func(objTree objecttree.ObjectTree) (objecttree.ReadableObjectTree, error)) (restore func()) {
+	prev := buildHistoryTree
+	buildHistoryTree = f
+	return func() { buildHistoryTree = prev }
+}
